@@ -43,6 +43,7 @@ def on_field(callees, field, argi=0):
 def run(R):
     liveness_rules(R)
     retain_rules(R)
+    expired_rule(R)
     F = R.F
     R.who_may_write("C08.own.ongoing", RF, "on_going_fetches", WRITERS, floor=3, descr="on_going_fetches is touched only by the fetcher's own scheduling/completion functions")
     R.who_may_write("C08.own.queue", RF, "to_be_fetched", WRITERS, floor=4, descr="to_be_fetched is touched only by the fetcher's own functions")
@@ -448,6 +449,40 @@ def _kt(body, c):
     if "libp2p_kad::record::Key" in ta_ and "libp2p_kad::record::Key" in tb_:
         return "K"
     return None
+
+
+def expired_rule(R, pfx="C08"):
+    # expiry: every retain on the in-flight set inside the pruning pass keeps exactly the entries whose own deadline has not passed
+    # (a second sweep "drop whatever else the failed holder has in flight" removes fetches that are still running: they can then be
+    # scheduled a second time and the parallel limit no longer bounds what is really in flight)
+    def _expired(body, c):
+        now = Taint(body).closure(call_results(["*Instant::now", "tokio::time::instant::Instant::now", "std::time::Instant::now"])(body))
+        la, lb = op_local(c["a"]), op_local(c["b"])
+        if lb in now and la not in now:
+            return {"Lt": ("E", True), "Ge": ("E", False), "Le": ("E", True), "Gt": ("E", False)}.get(c["op"]) if c["op"] in ("Lt", "Ge") else None
+        if la in now and lb not in now:
+            return {"Gt": ("E", True), "Le": ("E", False)}.get(c["op"])
+        return None
+    # … and nothing leaves the in-flight set any other way: the only removing operation applied to on_going_fetches anywhere in the
+    # fetcher is `retain` (each retain is decided by a truth-table rule of its function); `remove`, `clear`, `drain`, `extract_if`,
+    # `mem::take` have no decided predicate
+    REMOVERS = [HM + x for x in ("remove", "remove_entry", "clear", "drain", "extract_if")] + ["core::mem::take", "core::mem::replace", "core::mem::swap"]
+    odd, scanned = [], 0
+    for b_ in R.F.bodies.values():
+        if b_.crate != "ant_networking" or "replication_fetcher" not in b_.path:
+            continue
+        scanned += 1
+        for bid in on_field(REMOVERS, "on_going_fetches")(b_):
+            odd.append((b_, bid))
+    for b_, bid in odd[:3]:
+        t_ = cfg_of(b_).term(bid)
+        R.viol(pfx + ".leave.only-retain", "inflight-removed:%s:%s" % (b_.npath.split("::")[-1], (t_.get("ncallee") or "?").split("::")[-1]),
+               "%s removes in-flight fetches with %s: no rule decides which entries leave" % (b_.path, (t_.get("ncallee") or "?")), b_, t_.get("l"))
+    R.inst(pfx + ".leave.only-retain", "K2 mutator whitelist", "entries leave on_going_fetches only through retain (bodies of the fetcher scanned: %d)" % scanned, scanned, not odd and scanned >= 10)
+    if scanned < 10:
+        R.viol(pfx + ".leave.only-retain", "instance-floor", "fewer than 10 fetcher bodies scanned (%d)" % scanned)
+    R.retain_polarity(pfx + ".leave.expired.inflight", RFP + "prune_expired_keys_and_slow_nodes", "on_going_fetches", lambda e: "E" in e and not e["E"],
+                      "the pruning pass drops exactly the in-flight entries whose own deadline has passed", _expired)
 
 
 def retain_rules(R, pfx="C08"):
